@@ -4,7 +4,7 @@
 (*  "epoch_time" EpochState.advance_time / time_left arithmetic              *)
 (*  "set_seed"   Model.set_seed hands distinct split keys to the seed nodes  *)
 (*  "group"      Group.value_from reads the group member from a model state  *)
-EXTENDS BuilderRules, EpochRules, TraceBatch
+EXTENDS BuilderRules, EpochRules, VarGraph, TraceBatch
 
 VARIABLES tnow, tin     \* epoch-time model: current time and time within the epoch
 TInit == BatchInit /\ tnow = 0 /\ tin = 0
@@ -47,5 +47,17 @@ TGroup ==
   /\ Chk("value_from_reads_member_from_state", Ev.from_state = Ev.direct)
   /\ UNCHANGED <<tnow, tin>> /\ Step
 
-TNext == TBuilder \/ TEpochStart \/ TAdvance \/ TSetSeed \/ TGroup
+TVarGraph ==
+  /\ IsEvent("var_graph")
+  /\ \A v \in Vars(Ev.own) :
+       /\ Chk("all_input_vars_stop_at_first_variable",
+              SeqToSet(Ev.input_vars[v]) = InputVars(Ev.inp, Ev.own, v))
+       /\ Chk("all_output_vars_is_inverse", SeqToSet(Ev.output_vars[v]) = OutputVars(Ev.inp, Ev.own, v))
+  /\ Chk("model_var_graph_edges", {<<Ev.edges[i][1], Ev.edges[i][2]>> : i \in 1..Len(Ev.edges)} = VarEdges(Ev.inp, Ev.own))
+  /\ Chk("model_node_graph_edges",
+         {<<Ev.node_edges[i][1], Ev.node_edges[i][2]>> : i \in 1..Len(Ev.node_edges)}
+           = {<<m, n>> \in (1..Len(Ev.inp)) \X (1..Len(Ev.inp)) : m \in SeqSet(Ev.inp[n])})
+  /\ UNCHANGED <<tnow, tin>> /\ Step
+
+TNext == TVarGraph \/ TBuilder \/ TEpochStart \/ TAdvance \/ TSetSeed \/ TGroup
 =============================================================================
